@@ -201,7 +201,7 @@ def correspondence(ctx, model_ok):
 
 def oracle_cases(ctx, corr):
     # integer wrappers on operands of 32-64 bits (values >= 2^53) are oracle-only: they cannot be tabulated
-    return [dict(c) for c in fc.WIDE_CASES] + [dict(c) for c in fc.SIGWIDE_CASES] + list(getattr(corr, '_cases', []))
+    return [dict(c) for c in fc.WIDE_CASES] + [dict(c) for c in fc.SIGWIDE_CASES] + [dict(c) for c in fc.SYMWIDE_CASES] + list(getattr(corr, '_cases', []))
 
 
 def oracle(case):
